@@ -31,7 +31,10 @@ func (b *buffer) currentTag() Tag {
 
 // nextTag returns the next tag in tagBuffer
 func (b *buffer) nextTag() Tag {
-	return b.tag[b.pos+1]
+	if b.pos+1 < b.len {
+		return b.tag[b.pos+1]
+	}
+	return Tag{}
 }
 
 // nextTag increments the position by 1
